@@ -51,7 +51,7 @@ def switch_arms(db, prov, f):
     return out
 
 
-def arm_region(cfg, start, stop_blocks, limit=12):
+def arm_region(cfg, start, stop_blocks, limit=24):
     """blocks of an arm: straight-line chain from the arm's first block (follows single successors and calls)."""
     out = []
     x = start
@@ -61,7 +61,17 @@ def arm_region(cfg, start, stop_blocks, limit=12):
         out.append(x)
         su = cfg.succ[x]
         if len(su) != 1:
-            break
+            # `expr?` inside the arm: follow the success (Continue) edge of the desugared Try::branch switch
+            t = cfg.blocks[x].term
+            nxt = None
+            if t.k == "switch" and any("QuestionMark" in m for m in (t.mac or [])):
+                cont = [tg for v, tg in t.j["targets"] if v == 0]
+                if cont:
+                    nxt = cont[0]
+            if nxt is None:
+                break
+            x = nxt
+            continue
         x = su[0]
     return out
 
